@@ -279,6 +279,8 @@ func c15(p *model.Prog, r *report.Result) {
 	r.Check(len(model.CallsTo(tick, p.MethodObj("pkg/logic", "Group", "disposeInactiveSessions"))) == 1, "C15.R4", fkey(tick, "sweep", "called"), p.Pos(tick.Pos()), "the sweep runs on every tick", "Group.Tick no longer runs the liveness sweep")
 	c15r4(p, r)
 	c15r5(p, r)
+	w5SweepReached(p, r, "C15.R6")
+	w5PlayConnProps(p, r, "C15.R7")
 }
 
 func loadOfGlobal(v ssa.Value) (*ssa.Global, bool) {
